@@ -15,6 +15,7 @@ import (
 	"fmt"
 	"os"
 	"sort"
+	"strings"
 	"sync"
 	"time"
 
@@ -47,15 +48,18 @@ func main() {
 	// private to this process: concurrent runs (other seeds, replays) must not share it
 	scratch, err := os.MkdirTemp(os.TempDir(), "aC03-run-")
 	if err != nil {
-		res.Note("scratch directory: %v", err)
+		res.Fatalf("scratch directory: %v", err)
 		lib.Finish(f, res)
 	}
 	defer os.RemoveAll(scratch)
 	if f.Driver == "" {
-		res.Note("no --driver: correspondence with the Lean model not checked")
+		res.Fatalf("no --driver: correspondence with the Lean model cannot be checked")
 	}
 
 	lf, sp, ho := probeVariant()
+	if probeErr != nil {
+		res.Fatalf("variant probe: %v", probeErr)
+	}
 	res.Note("variant of the new backend found in the tree: leafFix=%v sysProbeFix=%v histOrderFix=%v", lf, sp, ho)
 	res.Hit(fmt.Sprintf("variant:histOrderFix=%v", ho))
 	res.Hit(fmt.Sprintf("variant:leafFix=%v", lf))
@@ -121,7 +125,7 @@ func main() {
 			defer func() { <-sem }()
 			e, err := NewEngine(sc.cfg, lib.NewRNG(sc.seed), f.Driver, scratch, res)
 			if err != nil {
-				res.Note("scenario %s: %v", sc.cfg.Name, err)
+				res.Fatalf("scenario %s could not start: %v", sc.cfg.Name, err)
 				return
 			}
 			defer e.Close()
@@ -156,7 +160,7 @@ func main() {
 						e.hit("op:revert")
 					}
 					if err := e.Apply(s); err != nil {
-						res.Note("scenario %s: %v", sc.cfg.Name, err)
+						res.Fatalf("scenario %s: step cannot be executed: %v", sc.cfg.Name, err)
 						break
 					}
 					e.CheckAll()
@@ -192,7 +196,7 @@ func main() {
 		steps := shrink(fd.cfg, fd.steps, fd.f.Violation, fd.f.Sig, f.Driver, scratch, 25*time.Second)
 		// re-run the shrunk history to get the failing query that goes with it
 		fl := fd.f
-		if fs, _ := runSteps(fd.cfg, steps, pick(fd.f.Violation, "", f.Driver), scratch, nil, false); hasSig(fs, fd.f.Violation, fd.f.Sig) {
+		if fs, _ := runSteps(fd.cfg, steps, pick(fd.f.Violation && !strings.HasSuffix(fd.f.Sig, "-after-drain"), "", f.Driver), scratch, nil, false); hasSig(fs, fd.f.Violation, fd.f.Sig) {
 			for _, x := range fs {
 				if x.Violation == fd.f.Violation && x.Sig == fd.f.Sig {
 					fl = x
@@ -224,17 +228,18 @@ func pick(c bool, a, b string) string {
 func replay(f lib.Flags, res *lib.Result, scratch string) {
 	raw, err := os.ReadFile(f.Replay)
 	if err != nil {
-		res.Note("replay: %v", err)
+		res.Fatalf("replay: %v", err)
 		return
 	}
 	var rf replayFile
 	if err := json.Unmarshal(raw, &rf); err != nil || len(rf.Replay.Steps) == 0 {
-		res.Note("replay: cannot read steps from %s: %v", f.Replay, err)
+		res.Fatalf("replay: cannot read steps from %s: %v", f.Replay, err)
 		return
 	}
-	fs, valid := runSteps(rf.Replay.Config, rf.Replay.Steps, f.Driver, scratch, res, true)
+	fs, valid, why := runStepsWhy(rf.Replay.Config, rf.Replay.Steps, f.Driver, scratch, res, true)
 	if !valid {
-		res.Note("replay: the recorded history could not be executed to the end")
+		// a replay that does not run is never green
+		res.Fatalf("replay: the recorded history could not be executed to the end: %s", why)
 	}
 	for _, fl := range fs {
 		rp := map[string]any{"config": rf.Replay.Config, "steps": rf.Replay.Steps, "query": fl.Query}
